@@ -541,7 +541,8 @@ func (w *willMsg) signal(send bool) {
 // sendWillLocked sends the will message for the client, this function must be guard by srv.Lock.
 func (srv *server) sendWillLocked(msg *gmqtt.Message, clientID string) {
 	req := &WillMsgRequest{
-		Message: msg,
+		Message:          msg,
+		IterationOptions: defaultIterateOptions(msg.Topic),
 	}
 	if srv.hooks.OnWillPublish != nil {
 		srv.hooks.OnWillPublish(context.Background(), clientID, req)
@@ -560,7 +561,8 @@ func (srv *server) sendWillLocked(msg *gmqtt.Message, clientID string) {
 			srv.retainedDB.AddOrReplace(msg.Copy())
 		}
 	}
-	srv.deliverMessage(clientID, msg, defaultIterateOptions(msg.Topic))
+	// the hook may have narrowed the set of subscriptions the will goes to (like OnMsgArrived can)
+	srv.deliverMessage(clientID, msg, req.IterationOptions)
 	if srv.hooks.OnWillPublished != nil {
 		srv.hooks.OnWillPublished(context.Background(), clientID, req.Message)
 	}
